@@ -10,6 +10,7 @@ the whole pool, not just the arguments, is what decides the aliasing clause.
 """
 from __future__ import annotations
 
+from ..snap import SnapshotTooLarge
 from ..gpworld import build_step, gen_step, individual_snapshot, snapshot_violation, structural_hash, step_kinds
 from ..ref import canon
 from ..spec import features
@@ -31,7 +32,7 @@ COMPONENTS_STUB = ["RandomSource.randint/random_float (SimRandom)", "fitness fun
 ASSUMPTIONS = ["an operator that must evaluate may ADD a missing fitness or phenotype cache to an input individual, never change an existing one",
                "Individual.metadata (e.g. the generation tag written by Population) is not node metadata and is not compared"]
 
-FEAT = features(list=2, annlist=2, union=1, tuple=1, cls=8, refined=3, nested=1, standalone=1, dependent=1, concrete_start=2, flaky=1, self_ref=1, nested_list=1, falsy=1)
+FEAT = features(list=2, annlist=2, union=1, tuple=1, cls=8, refined=3, nested=1, standalone=1, dependent=1, concrete_start=2, flaky=1, self_ref=1, nested_list=1, falsy=1, future_annotations=1)
 
 
 def budget(tier):
@@ -189,5 +190,7 @@ def run(ctx):
             if not check(after):
                 break
         ctx.sample = {**w.describe(), "multi_objective": multi, "history": history[:15], "pool": len(pool)}
+    except SnapshotTooLarge:
+        ctx.stat("unjudged:program-too-large-to-snapshot")
     finally:
         w.dispose()
